@@ -251,11 +251,24 @@ def trigClash (r : Except Err Doc) : Bool :=
 
 /-! ### validator for the builder's document shape -/
 
-def stripBang (s : String) : String := if s.endsWith "!" then (s.dropEnd 1).toString else s
+/-- the named type under the `!` / `[...]` wrappers of a type written in GraphQL syntax
+    (on character lists, so that it evaluates in the kernel) -/
+def baseChars : Nat → List Char → List Char
+  | 0, cs => cs
+  | fuel + 1, cs =>
+    if cs.getLast? = some '!' then baseChars fuel cs.dropLast
+    else if cs.head? = some '[' && cs.getLast? = some ']' then baseChars fuel (cs.drop 1).dropLast
+    else cs
+
+def baseTypeName (t : String) : String := String.ofList (baseChars t.length t.toList)
 
 def isInputKind : Kind → Bool
   | .scalar | .enum | .input => true
   | _ => false
+
+/-- the type string names an input type of the schema -/
+def typeNameOK (s : Schema) (t : String) : Bool :=
+  (s.find (baseTypeName t)).isSome && isInputKind (s.kindOf (baseTypeName t))
 
 def isComposite : Kind → Bool
   | .object | .interface | .union => true
@@ -280,6 +293,11 @@ def findField (s : Schema) (parent : String) (name : String) : Option FieldDef :
     | .object | .interface => td.fields.find? (·.name == name)
     | _ => none
 
+/-- pairwise distinct (decidable, by recursion) -/
+def allDistinct : List String → Bool
+  | [] => true
+  | x :: xs => !xs.contains x && allDistinct xs
+
 def validArgs (f : FieldDef) (defs : List (String × String)) (args : List (String × String)) : Bool :=
   args.all (fun ku =>
     match f.args.find? (·.name == ku.1) with
@@ -289,7 +307,7 @@ def validArgs (f : FieldDef) (defs : List (String × String)) (args : List (Stri
       | none => false                                                   -- NoUndefinedVariables
       | some t => t == a.ty.render)                                     -- exact type
   && f.args.all (fun a => !a.ty.isNonNull || args.any (·.1 == a.name))  -- ProvidedRequiredArguments
-  && (args.map (·.1)).eraseDups.length == args.length                   -- UniqueArgumentNames
+  && allDistinct (args.map (·.1))                                       -- UniqueArgumentNames
 
 mutual
   def validSel (s : Schema) (defs : List (String × String)) (parent : String) : Sel → Bool
@@ -299,7 +317,7 @@ mutual
       | some f =>
         validArgs f defs args &&
         (if isComposite (s.kindOf f.ty.final) then hasSet && !sels.isEmpty && validSels s defs f.ty.final sels
-         else !hasSet)                                                  -- ScalarLeafs
+         else !hasSet && sels.isEmpty)                                  -- ScalarLeafs
     | .frag ty sels =>
       isComposite (s.kindOf ty) && (s.find ty).isSome                   -- KnownTypeNames, FragmentsOnCompositeTypes
       && (possibleTypes s ty).any (fun t => (possibleTypes s parent).contains t)   -- PossibleFragmentSpreads
@@ -317,9 +335,181 @@ def validDoc (s : Schema) (d : Doc) : Bool :=
   | none => false
   | some root =>
     let names := d.varDefs.map (·.1)
-    names.eraseDups.length == names.length                                                  -- UniqueVariableNames
-    && d.varDefs.all (fun nt => (s.find (stripBang nt.2)).isSome && isInputKind (s.kindOf (stripBang nt.2)))  -- VariablesAreInputTypes
+    allDistinct names                                                                       -- UniqueVariableNames
+    && d.varDefs.all (fun nt => typeNameOK s nt.2)                                          -- VariablesAreInputTypes, KnownTypeNames
     && names.all (fun n => (docVars d).contains n)                                          -- NoUnusedVariables
     && !d.sels.isEmpty && validSels s d.varDefs root d.sels
+
+end Ariadne.BuilderDoc
+
+namespace Ariadne.BuilderDoc
+open Ariadne Ariadne.Builder Ariadne.CustomGen
+
+/-! ### the expression read locally: every accessor yields a FRESH object
+
+`Cls.attr` denotes a copy of the class-level object as it is right after import; everything else is
+`evalExpr` without a store.  This is the reference reading of a builder expression: what it says,
+independently of what else was built in the process. -/
+
+def freshOfShared (p : Package) (cls a : String) : Option Node :=
+  match p.sharedId cls a with
+  | some id => p.initStore[id]?
+  | none => none
+
+def ownCls : Node → Option String
+  | .obj r _ _ => some r.cls
+  | .ref _ => none
+
+mutual
+  def evalFresh (p : Package) : Expr → Except Err Node
+    | .attr cls a =>
+      match p.findClass cls with
+      | none => .error .attribute
+      | some c =>
+        match c.findAcc a with
+        | none => .error .attribute
+        | some acc =>
+          match acc.kind with
+          | .method => .error (.internal "bound method used as a field")
+          | .shared =>
+            match freshOfShared p cls a with
+            | some n => .ok n
+            | none => .error (.internal "shared accessor without id")
+    | .call cls a kw =>
+      match p.findClass cls with
+      | none => .error .attribute
+      | some c =>
+        match c.findAcc a with
+        | none => .error .attribute
+        | some acc =>
+          match acc.kind with
+          | .shared => .error .typeErr
+          | .method =>
+            match bindArgs acc.args kw with
+            | .error e => .error e
+            | .ok vars => .ok (mkNode acc vars)
+    | .alias e al =>
+      match evalFresh p e with
+      | .error x => .error x
+      | .ok n => if classHas p (·.hasAlias) (ownCls n) then .ok (setAlias al n) else .error .attribute
+    | .fields e cs =>
+      match evalFresh p e with
+      | .error x => .error x
+      | .ok n =>
+        if classHas p (·.hasFields) (ownCls n) then
+          match evalFreshList p cs with
+          | .error x => .error x
+          | .ok ns => .ok (extendSubs ns n)
+        else .error .attribute
+    | .on e ty cs =>
+      match evalFresh p e with
+      | .error x => .error x
+      | .ok n =>
+        if classHas p (·.hasOn) (ownCls n) then
+          match evalFreshList p cs with
+          | .error x => .error x
+          | .ok ns => .ok (setFrag ty ns n)
+        else .error .attribute
+  def evalFreshList (p : Package) : List Expr → Except Err (List Node)
+    | [] => .ok []
+    | e :: es =>
+      match evalFresh p e with
+      | .error x => .error x
+      | .ok n =>
+        match evalFreshList p es with
+        | .error x => .error x
+        | .ok ns => .ok (n :: ns)
+end
+
+/-- what the operation says: per field its GraphQL name, alias, the non-None arguments with their exact
+    GraphQL type and the caller's value, and its selections -/
+def Intended (p : Package) (op : Op) : Option (List RSel) :=
+  match evalFreshList p op.fields with
+  | .ok ns => some (intendedExactList [] ns)
+  | .error _ => none
+
+/-! ### validity of a RESOLVED selection against the schema (the caller wrote a well-typed expression) -/
+
+def validRArgs (s : Schema) (f : FieldDef) (args : List (String × String × J)) : Bool :=
+  args.all (fun kt =>
+    match f.args.find? (·.name == kt.1) with
+    | none => false
+    | some a => kt.2.1 == a.ty.render && typeNameOK s kt.2.1)
+  && f.args.all (fun a => !a.ty.isNonNull || args.any (·.1 == a.name))
+  && allDistinct (args.map (·.1))
+
+mutual
+  def validRSel (s : Schema) (parent : String) : RSel → Bool
+    | .field _ name args hasSet sels =>
+      match findField s parent name with
+      | none => false
+      | some f =>
+        validRArgs s f args &&
+        (if isComposite (s.kindOf f.ty.final) then hasSet && !sels.isEmpty && validRSels s f.ty.final sels
+         else !hasSet && sels.isEmpty)
+    | .frag ty sels =>
+      isComposite (s.kindOf ty) && (s.find ty).isSome
+      && (possibleTypes s ty).any (fun t => (possibleTypes s parent).contains t)
+      && !sels.isEmpty && validRSels s ty sels
+  def validRSels (s : Schema) (parent : String) : List RSel → Bool
+    | [] => true
+    | x :: xs => validRSel s parent x && validRSels s parent xs
+end
+
+/-- the operation is a well-typed selection on the schema's root type -/
+def ValidExpr (s : Schema) (p : Package) (op : Op) : Bool :=
+  match rootType s op.opType, Intended p op with
+  | some root, some rs => !rs.isEmpty && validRSels s root rs
+  | _, _ => false
+
+/-! ### printing (only used to tell two concrete documents apart by a decidable comparison) -/
+
+def showOpt : Option String → String
+  | some a => a ++ ": "
+  | none => ""
+
+def showList (xs : List String) : String := String.intercalate " " xs
+
+mutual
+  def showJ : J → String
+    | .null => "null"
+    | .bool b => toString b
+    | .num m e => toString m ++ "e-" ++ toString e
+    | .str s => "\"" ++ s ++ "\""
+    | .arr xs => "[" ++ showJs xs ++ "]"
+    | .obj kvs => "{" ++ showKvs kvs ++ "}"
+  def showJs : List J → String
+    | [] => ""
+    | x :: xs => showJ x ++ "," ++ showJs xs
+  def showKvs : List (String × J) → String
+    | [] => ""
+    | (k, v) :: rest => k ++ ":" ++ showJ v ++ "," ++ showKvs rest
+end
+
+mutual
+  def showSel : Sel → String
+    | .field al nm args hs sels =>
+      showOpt al ++ nm ++ "(" ++ showList (args.map fun a => a.1 ++ ": $" ++ a.2) ++ ")"
+        ++ (if hs then " { " ++ showSels sels ++ "}" else "")
+    | .frag ty sels => "... on " ++ ty ++ " { " ++ showSels sels ++ "}"
+  def showSels : List Sel → String
+    | [] => ""
+    | s :: ss => showSel s ++ " " ++ showSels ss
+end
+
+mutual
+  def showRSel : RSel → String
+    | .field al nm args hs sels =>
+      showOpt al ++ nm ++ "(" ++ showList (args.map fun a => a.1 ++ ": " ++ a.2.1 ++ " = " ++ showJ a.2.2) ++ ")"
+        ++ (if hs then " { " ++ showRSels sels ++ "}" else "")
+    | .frag ty sels => "... on " ++ ty ++ " { " ++ showRSels sels ++ "}"
+  def showRSels : List RSel → String
+    | [] => ""
+    | s :: ss => showRSel s ++ " " ++ showRSels ss
+end
+
+def showDoc (d : Doc) : String :=
+  d.opType ++ " " ++ d.name ++ "(" ++ showList (d.varDefs.map fun v => "$" ++ v.1 ++ ": " ++ v.2) ++ ") { "
+    ++ showSels d.sels ++ "} " ++ showKvs d.values
 
 end Ariadne.BuilderDoc
